@@ -10,7 +10,7 @@ MANIFEST = {
     'engine': 'E1',
     'technique': 'exhaustive enumeration of (sheet naming, model origin, override, write target) with a per-cell oracle over every solved cell of the written workbooks',
     'text': 'A two-book workbook holding every value kind (integer, fraction, text, text beginning with "=", empty text, logicals, three error values, blank reference) and '
-            'array-formula ranges of shape 1x1, 1x2, 2x1 and 2x2 is built with each of 6 sheet namings (plain, with a space, lower case, needing quotes, with an apostrophe, digit-first), '
+            'array-formula ranges of shape 1x1, 1x2, 2x1 and 2x2 is built with each of 7 sheet namings (plain, with a space, lower case, needing quotes, with an apostrophe, digit-first, with a letter whose upper case is two letters), '
             'loaded fully or from chosen ranges (sentinel cells outside the model), calculated with and without overridden inputs, and written into fresh books, into the loaded '
             'books and to disk (read back with openpyxl). Every (book, sheet, coordinate) covered by the solution must hold the converted solved value at its own position, '
             'no extra sheet may appear, sentinels must be untouched and compare() with the written files must report no difference. Half of the namings are repeated with the second book\'s sheet carrying the same name as the first book\'s.',
@@ -19,7 +19,7 @@ MANIFEST = {
 RULE = 'case = (sheet name, origin, override, target); every solved cell is one obligation; non-trivial = written and inspected; distinct = case key'
 ASSUMPTIONS = ['one workbook layout; empty text and blank may both be stored as an empty cell ("" or None)']
 B, C = M.B, M.C
-SHEETS = ['S', 'My Data', 'lower', 'x-y', "It's", '1st']
+SHEETS = ['S', 'My Data', 'lower', 'x-y', "It's", '1st', 'Maße']      # 'Maße'.upper() == 'MASSE': case folding that changes length
 
 
 def build_spec(sn, same=False):
@@ -31,6 +31,9 @@ def build_spec(sn, same=False):
         K(sn, 'B1'): op('/', num(1), num(0)), K(sn, 'B2'): ['err', '#N/A'], K(sn, 'B3'): cell(sn, 'A9'), K(sn, 'B4'): ['txt', ''],
         K(sn, 'B5'): ['txt', '=x'], K(sn, 'B6'): op('&', cell(sn, 'A3'), cell(sn, 'A1')), K(sn, 'B7'): op('=', cell(sn, 'A1'), num(3)),
         K(sn, 'B8'): op('+', ['txt', 'abc'], num(1)),
+        # logical results that come back as numpy booleans
+        K(sn, 'B9'): fn('ISNUMBER', cell(sn, 'A1')), K(sn, 'B10'): fn('ISERROR', cell(sn, 'B1')), K(sn, 'B11'): fn('ISBLANK', cell(sn, 'A9')),
+        K(sn, 'B12'): fn('NOT', fn('ISTEXT', cell(sn, 'A3'))), K(sn, 'B13'): fn('AND', cell(sn, 'A5'), fn('ISNUMBER', cell(sn, 'A2'))),
         K('T', 'A1'): op('+', cell(sn, 'A1'), num(1)),
         K(U, 'A1', C): const(('n', 10.0)), K(U, 'B1', C): op('*', cell(sn, 'A1'), cell(U, 'A1', C)), K(U, 'A3', C): const(('t', 'other book')),
     }
@@ -40,6 +43,7 @@ def build_spec(sn, same=False):
         K(sn, 'G5:G6'): op('*', rng(sn, 'A1:A2'), num(2)),
         K(sn, 'G8:H9'): op('+', rng(sn, 'A1:A2'), num(0)),
         K(sn, 'J1:K2'): op('&', rng(sn, 'A5:A6'), ['txt', '']),
+        K(sn, 'M1:M3'): fn('ISNUMBER', rng(sn, 'A1:A3')),
     }
     return {'cells': cells, 'arrays': arrays, 'names': {}, 'sheets': [[B, sn], [B, 'T'], [C, U]]}
 
@@ -96,7 +100,7 @@ def run_case(case):
             if origin == 'loads':
                 m = formulas.ExcelModel().loads(B, C).finish()
             else:
-                outs = [X.lib_id(B, sn, c) for c in ('B6', 'B8', 'G8:H9', 'J1:K2', 'B3')] + [X.lib_id(B, 'T', 'A1'), X.lib_id(C, U, 'B1')]
+                outs = [X.lib_id(B, sn, c) for c in ('B6', 'B8', 'G8:H9', 'J1:K2', 'B3', 'B9', 'B13', 'M1:M3')] + [X.lib_id(B, 'T', 'A1'), X.lib_id(C, U, 'B1')]
                 m = formulas.ExcelModel().from_ranges(*outs).finish()
             inputs = {X.lib_id(B, sn, 'A1'): 99, X.lib_id(B, sn, 'A3'): '=y'} if over else {}
             sol = m.calculate(inputs)
